@@ -115,6 +115,17 @@ class Sched:
                 self.cv.notify_all()
                 self._wait_turn(i)
 
+    def pass_turn(self):
+        """Give the processor to the next ready thread (if any) and wait for the next turn."""
+        i = self.me()
+        if i is None:
+            return
+        with self.cv:
+            if any(st == 'ready' for j, st in enumerate(self.state) if j != i):
+                self._pick_next(i)
+                self.cv.notify_all()
+                self._wait_turn(i)
+
     def block_on(self, lock):
         i = self.me()
         with self.cv:
